@@ -24,8 +24,16 @@ KLENS = {"R255": (32, 32), "P256": (33, 32), "P384": (49, 48), "P521": (67, 66),
 NN = 32
 
 
+# suites whose DEFAULT stretching function is a zero-sized, non-identity type (it reverses its input); harness only.
+# The model has no such suite: for it the same request is spelled with the base suite and the explicit instance `R`
+# wherever the harness says `~` (absent) or `D` (explicit default) - that IS the specification of "absent = default".
+Z_SUITES = ["R255/R255+z", "P256/P256+z", "P384/X25519+z"]
+KSF_ARG = {"flow": 8, "flow_nofile": 8, "flow_blobs": 8, "reg_finish": 6, "login_finish": 6}
+
+
 class Lens:
     def __init__(s, suite):
+        suite = suite.split("+")[0]
         o, k = suite.split("/")
         s.Nh, s.Noe, s.Nok = LENS[o]
         s.Npk, s.Nsk = KLENS[k]
@@ -228,7 +236,15 @@ class Ctx:
             rec_op = op
         toks = [a if isinstance(a, str) else (ohx(a) if (a is None or isinstance(a, (bytes, bytearray))) else str(a))
                 for a in args]
-        st, pl = s.proc.call(suite or s.suite, op, toks)
+        use_suite = suite or s.suite
+        if s.side == "model" and use_suite.endswith("+z"):
+            use_suite = use_suite[:-2]
+            i = KSF_ARG.get(op)
+            if i is not None:
+                i = i if model_args is None or op not in ("flow", "flow_nofile") else i - 2   # `flow` on the model: no reload arguments
+                if i < len(toks) and toks[i] in ("~", "D"):
+                    toks[i] = "R"
+        st, pl = s.proc.call(use_suite, op, toks)
         extra = []
         if impl_extra and s.side == "impl" and st == "OK":
             # trailing output tokens that only the harness reports (e.g. the callback trace of an external key)
